@@ -344,6 +344,25 @@ class Ctx:
                 return False
         return True
 
+    def pc_entails_call(self, body, blk, callee, args, value):
+        """On every path to `blk` the bool fn `callee(args)` (a loop-free fn of the crate, any
+        visibility: it is read by its definition) has `value`: the path says so itself, or it
+        contradicts every way for the fn to return the opposite."""
+        s, pc = self.sym(body)
+        e = ("call", callee, tuple(args), ())
+        alts = sym.predicate_alternatives(body.crate, (e, not value), any_vis=True)
+        res = []
+        for d in pc.conditions(blk):
+            direct = any(x[0] == "call" and x[1] == callee and tuple(x[2]) == tuple(args) and v == value for (x, v) in d)
+            if direct:
+                res.append(True)
+                continue
+            if alts is None:
+                res.append(False)
+                continue
+            res.append(all(any(x2 == x1 and sym._contradict(v1, v2) for (x1, v1) in alt for (x2, v2) in d) for alt in alts))
+        return bool(res) and all(res)
+
     def forbids(self, rule, body, blk, event, atoms):
         """No path to `blk` satisfies all of `atoms` together (regexes)."""
         disj = self.pc_strs(body, blk)
